@@ -22,6 +22,8 @@ STRUCT_CLASSES = [
     "MonadicModifier", "DyadicModifier", "TriadicModifier",
 ]
 
+LAMBDA_OP_EXTRA: list[str] = []
+
 MARK = "HOLE_"
 
 
@@ -39,6 +41,24 @@ class Gen:
         self.st = self.it.module("vyxal.structure")
         self.lx = self.it.module("vyxal.lexer")
         self.classes: dict[str, PClass] = {}
+        # structure classes added as further lambda operators (subclasses of
+        # LambdaOp constructed from a body alone) are one more member of
+        # the LambdaMap / LambdaFilter / LambdaSort family
+        try:
+            stree = repo.mod("structure").tree
+        except Exception:  # noqa: BLE001
+            stree = None
+        if stree is not None:
+            for c in stree.body:
+                if isinstance(c, ast.ClassDef) and c.name not in \
+                        STRUCT_CLASSES and any(
+                        isinstance(b, ast.Name) and b.id == "LambdaOp"
+                        for b in c.bases) and all(
+                        [a.arg for a in m.args.args] == ["self", "body"]
+                        for m in c.body if isinstance(m, ast.FunctionDef)
+                        and m.name == "__init__"):
+                    STRUCT_CLASSES.append(c.name)
+                    LAMBDA_OP_EXTRA.append(c.name)
         for name in STRUCT_CLASSES + ["Structure", "LambdaOp"]:
             try:
                 self.classes[name] = self.st.get(name)
